@@ -129,6 +129,56 @@ func (x *Exec) isImmutable(c string) bool {
 	return false
 }
 
+// isCallbackPrivate: the class belongs to an unexported type (or field) that its package's
+// contracts declare out of reach of callbacks (`option callbackframe:Type` or
+// `callbackframe:Type.field`): calls through function values and interfaces leave it alone.
+// An assumption, reported whenever it is used.
+func (x *Exec) isCallbackPrivate(c string) bool {
+	if x.cbPrivate == nil {
+		x.cbPrivate = []string{}
+		for _, lp := range x.ld.Pkgs {
+			if lp.CF == nil {
+				continue
+			}
+			for o := range lp.CF.Options {
+				if strings.HasPrefix(o, "callbackframe:") {
+					n := strings.TrimPrefix(o, "callbackframe:")
+					if strings.Contains(n, ".") {
+						x.cbPrivate = append(x.cbPrivate, "f:"+lp.Path+"."+n)
+					} else {
+						x.cbPrivate = append(x.cbPrivate, "e:"+lp.Path+"."+n, "f:"+lp.Path+"."+n)
+					}
+				}
+			}
+		}
+		sort.Strings(x.cbPrivate)
+	}
+	return len(x.cbPrivate) > 0 && classMatches(c, x.cbPrivate)
+}
+
+// havocAllBut is havocAll for effects whose "everything" comes from calls to unknown code:
+// classes declared out of reach of callbacks survive unless the effects name them.
+func (x *Exec) havocAllBut(st *State, written map[string]bool) {
+	kept := map[string]*Term{}
+	if x.isCallbackPrivate(""); len(x.cbPrivate) > 0 {
+		var wr []string
+		for c := range written {
+			wr = append(wr, c)
+		}
+		for c, s := range x.classSort {
+			if !x.isCallbackPrivate(c) || classMatches(c, wr) {
+				continue
+			}
+			kept[c] = x.heapGet(st, c, s)
+		}
+	}
+	x.havocAll(st)
+	for c, t := range kept {
+		st.heap[c] = t
+		x.assumed["unknown code (calls through function values and interfaces, stores through pointers of unknown origin) does not write "+c+" (option callbackframe)"] = true
+	}
+}
+
 func isGhostClass(c string) bool { return strings.HasPrefix(c, "g:") }
 
 func (x *Exec) heapGet(st *State, class string, s *Sort) *Term {
